@@ -1516,19 +1516,92 @@ func (fx *FuncCtx) collectCallMods(ms *modSet, call *ast.CallExpr) {
 		}
 		return
 	}
-	// inlined callee: conservative — every slice argument may be written, heap may change
-	if fd, _ := fx.eng.funcDecl(callee); fd != nil && fd.Body != nil {
+	// inlined callee: analyse its body (recursively) and map the effects back to the arguments
+	if fd, pi := fx.eng.funcDecl(callee); fd != nil && fd.Body != nil {
 		if pureBody(fd) {
 			return
 		}
-		for _, a := range call.Args {
-			if t := fx.info.Types[a].Type; t != nil {
-				if sl, ok := t.Underlying().(*types.Slice); ok {
-					fx.noteMemWrite(ms, sl.Elem(), a)
+		if fx.modDepth >= 4 {
+			for _, a := range call.Args {
+				if t := fx.info.Types[a].Type; t != nil {
+					if sl, ok := t.Underlying().(*types.Slice); ok {
+						fx.noteMemWrite(ms, sl.Elem(), a)
+					}
+				}
+			}
+			ms.heapAll = true
+			return
+		}
+		sub := newModSet()
+		savedInfo, savedPkg := fx.info, fx.pkg
+		fx.info, fx.pkg = pi.pkg.TypesInfo, pi.pkg
+		fx.modDepth++
+		fx.collectMods(sub, fd.Body)
+		fx.modDepth--
+		calleeInfo := fx.info
+		fx.info, fx.pkg = savedInfo, savedPkg
+		// heap effects are global names
+		for k := range sub.heap {
+			ms.heap[k] = true
+		}
+		if sub.heapAll {
+			ms.heapAll = true
+		}
+		for k := range sub.memAll {
+			ms.memAll[k] = true
+			if _, ok := ms.mem[k]; !ok {
+				ms.mem[k] = nil
+			}
+		}
+		// memory writes: bases rooted at a parameter map to the argument; anything else is coarse
+		paramIdx := map[types.Object]int{}
+		recvObj := types.Object(nil)
+		k := 0
+		for _, f := range fd.Type.Params.List {
+			for _, n := range f.Names {
+				if o := calleeInfo.Defs[n]; o != nil {
+					paramIdx[o] = k
+				}
+				k++
+			}
+			if len(f.Names) == 0 {
+				k++
+			}
+		}
+		if fd.Recv != nil && len(fd.Recv.List) > 0 && len(fd.Recv.List[0].Names) > 0 {
+			recvObj = calleeInfo.Defs[fd.Recv.List[0].Names[0]]
+		}
+		for name, bases := range sub.mem {
+			for _, b := range bases {
+				id := rootIdent(b)
+				var arg ast.Expr
+				if id != nil {
+					if o := calleeInfo.ObjectOf(id); o != nil {
+						if i, ok := paramIdx[o]; ok && i < len(call.Args) {
+							if _, direct := unparen(b).(*ast.Ident); direct || isSliceChain(b) {
+								arg = call.Args[i]
+							}
+						}
+						if o == recvObj && recvObj != nil {
+							arg = nil
+						}
+					}
+				}
+				if arg != nil {
+					if t := fx.info.Types[arg].Type; t != nil {
+						if _, ok := t.Underlying().(*types.Slice); ok {
+							ms.mem[name] = append(ms.mem[name], arg)
+							continue
+						}
+					}
+				}
+				// through a field of the receiver / a local of the callee: whole memory of that element type
+				ms.memAll[name] = true
+				if _, ok := ms.mem[name]; !ok {
+					ms.mem[name] = nil
 				}
 			}
 		}
-		ms.heapAll = true
 	}
 }
 
@@ -1602,4 +1675,20 @@ func (fx *FuncCtx) resolveIfaceCallee(call *ast.CallExpr) *types.Func {
 	m, _, _ := types.LookupFieldOrMethod(obj.Type(), true, pi.pkg.Types, s.Obj().Name())
 	callee, _ := m.(*types.Func)
 	return callee
+}
+
+// isSliceChain: expression is an identifier possibly re-sliced (x, x[a:b], x[a:b][c:]).
+func isSliceChain(e ast.Expr) bool {
+	for {
+		switch x := e.(type) {
+		case *ast.Ident:
+			return true
+		case *ast.ParenExpr:
+			e = x.X
+		case *ast.SliceExpr:
+			e = x.X
+		default:
+			return false
+		}
+	}
 }
